@@ -567,3 +567,26 @@ def seglog_append(ctx):
         raise Unmatched("no fallible value in SegmentedLog::append")
     qs.append(PMulti("SegmentedLog::append: no fallible value is dropped uninspected", cfg, o2, fl2, {}, key="SegmentedLog::append:swallowed result"))
     return qs, {"seglog::SegmentedLog::append @ nomt/src/seglog/mod.rs"}
+
+
+def rollback_commit_order(ctx):
+    """rollback::Rollback::{commit, commit_nonblocking}: the reverse delta enters the in-memory log
+    only after the segmented log accepted (and fsynced) the record: a failed append leaves no
+    in-memory record behind, and no fallible value is dropped."""
+    prog = ctx.program("nomt")
+    qs, enc = [], set()
+    for rx, nm in [(r"^rollback::.*::commit$", "Rollback::commit"), (r"^rollback::.*::commit_nonblocking$", "Rollback::commit_nonblocking")]:
+        f = _fn(prog, rx, "rollback/mod.rs", r"Rollback")
+        cfg = pathsmt.Cfg(f)
+        table = [(r"SegmentedLog::append", None, [("set", "appended")]),
+                 (r"push_recent", None, [("bad_unless", "appended")])]
+        ops, hits = _events(cfg, table)
+        _require(table, hits, nm)
+        qs.append(PQuery("%s: push_recent only after seglog.append" % nm, cfg, ops, ["appended"], {}, key="%s:in-memory record before the durable append" % nm))
+        qs.append(PQuery("%s: push_recent is reachable" % nm, cfg, {bb: [("bad", None)] for bb in hits[1]}, [], {}, expect="sat"))
+        o2, fl2, defs = _swallow_ops(cfg)
+        if not defs:
+            raise Unmatched("no fallible value in " + nm)
+        qs.append(PMulti("%s: no fallible value is dropped uninspected" % nm, cfg, o2, fl2, {}, key="%s:swallowed result" % nm))
+        enc.add("%s @ nomt/src/rollback/mod.rs" % nm)
+    return qs, enc
